@@ -16,6 +16,7 @@ struct C19Plan
   int nops[C19_MAXTHREADS];
   C19Op ops[C19_MAXTHREADS][C19_MAXOPS];
   int t0_stamp_ops;   // thread 0 also creates stamps between observer operations
+  int fast_forward;   // the process has already handed out 2^32-24 stamps (state injection)
 };
 extern "C" {
 const C19Plan *c19_plan();
